@@ -199,12 +199,13 @@ def model_line(c, a, rng, ver="cur"):
     else:
         fin = "-"
     ov = tr["P"][0]["ov"] if tr["P"] else 3
-    cap = a.bound if c.out == "bound" else None
+    bound = a.bound if a.bound is not None else 0      # a call that never answered: the spec reports it
+    cap = bound if c.out == "bound" else None
     if cap is None:
         if c.out.startswith("bound-"):
-            cap = max(0, a.bound - int(c.out[6:]))
+            cap = max(0, bound - int(c.out[6:]))
         elif c.out.startswith("bound+"):
-            cap = a.bound + int(c.out[6:])
+            cap = bound + int(c.out[6:])
         else:
             cap = int(c.out)
     return ("M pr=%s ver=%s sp=%s base=%d done=%s jf=%s vf=%d uw=%d q=%d w=%d f=%d hint=%d t=%d n=%d cap=%d ov=%d calls=%s agree=%s cat=%s fin=%s" % (
@@ -268,17 +269,43 @@ def build_model():
     return (okx and okm), (logx if not okx else logm), model
 
 
-def run_impl(exe, cases, timeout=1500, shards=vlib.NCPU):
+def rerun_lost(exe, lines, outs, timeout=300):
+    """a process that aborts or times out loses the answers of all its remaining lines: run every
+    line without an answer again in a process of its own, so that only the line that really
+    brings the process down keeps the TOOL-... outcome"""
+    lost = [k for k, o in enumerate(outs) if o.startswith("TOOL-")]
+    for b in range(0, len(lost), 32):
+        batch = lost[b:b + 32]
+        again = vlib.run_lines(exe, [lines[k] for k in batch], shards=len(batch), timeout=timeout)
+        for k, o in zip(batch, again):
+            outs[k] = o
+    return outs
+
+
+def run_contiguous(exe, cases, timeout=900, shards=vlib.NCPU):
+    """consecutive cases go to the same process (pool reuse); returns Ans list"""
+    lines = [c.line() for c in cases]
+    outs = vlib.run_lines(exe, lines, shards=shards, timeout=timeout)
+    outs = outs + ["TOOL-MISSING"] * (len(lines) - len(outs))
+    return [Ans(o) for o in rerun_lost(exe, lines, outs)]
+
+
+def run_impl(exe, cases, timeout=900, shards=vlib.NCPU):
     """interleave the cases over the shards so that slow configurations spread out"""
     lines = [c.line() for c in cases]
+    if not lines:
+        return []
     idx = []
     shards = max(1, min(shards, len(lines)))
     for k in range(shards):
         idx.extend(range(k, len(lines), shards))
-    outs = vlib.run_lines(exe, [lines[i] for i in idx], shards=shards, timeout=timeout)
+    plines = [lines[i] for i in idx]
+    outs = vlib.run_lines(exe, plines, shards=shards, timeout=timeout)
+    outs = outs + ["TOOL-MISSING"] * (len(plines) - len(outs))
+    outs = rerun_lost(exe, plines, outs)
     res = [None] * len(lines)
     for pos, i in enumerate(idx):
-        res[i] = Ans(outs[pos] if pos < len(outs) else "TOOL-MISSING")
+        res[i] = Ans(outs[pos])
     return res
 
 
